@@ -432,6 +432,8 @@ h!(c18_v4req_4a_u1_d2, 16, v4_request::<12>(true, 1, true, 2, true));
 h!(c18_v4req_4a_u0_d0, 16, v4_request::<9>(true, 0, true, 0, true));
 h!(c18_v4req_4a_u0_d2_unterminated, 16, v4_request::<10>(true, 0, true, 2, false));
 h!(c18_v4req_4a_u0_nodomain, 16, v4_request::<8>(true, 0, true, 0, false));
+h!(c18_v4req_4a_u0_d1_unterminated, 16, v4_request::<9>(true, 0, true, 1, false));
+h!(c18_v4req_ip_u1_unterminated, 16, v4_request::<8>(false, 1, false, 0, false));
 
 // ---------------------------------------------------------------------------------------
 // Replies
